@@ -8,12 +8,12 @@ import OcVerif.Model.MultiPool
 namespace Oc.Props.C11
 open Oc.Pool
 
-/-- The reported running size equals the number of worker coroutines that have not returned from
-their loop — initially and after every pool operation, for every history of submissions, passes,
-clock advances, cancels, waits, `set_max_size` and stops.  (Partial with respect to the property:
-a worker dropped by a cancel while parked never returns, so it is counted forever — the recorded
-known finding; with no such drop this is the number of live workers.) -/
-theorem C11_exact_partial (p : Pool) (h : Inv11 p) :
+/-- The reported running size equals the number of live worker coroutines — initially and after
+every pool operation, for every history of submissions, passes, clock advances, cancels, waits,
+`set_max_size` and stops.  A worker leaves the count when it returns from its loop, when its task
+cancels its coroutine, and when the scheduler drops it on a cancel request while it is parked (the
+listener is told, `dropParked`). -/
+theorem C11_exact (p : Pool) (h : Inv11 p) :
     (∀ p', pass p = some p' → Inv11 p') ∧ Inv11 (stop p).1 ∧
     (∀ prog prio, Inv11 (submit p prog prio).1) ∧ (∀ t, Inv11 (cancelTask p t)) ∧ (∀ t, Inv11 (wait p t).1) ∧
     (∀ d, Inv11 { p with now := d }) ∧ (∀ m, Inv11 { p with maxSize := m }) := by
@@ -70,6 +70,18 @@ theorem C11_cancelled_worker_slot (f : Nat) (p : Pool) (w : Nat) (x : Worker) (t
       tryGrow (setWorker { p with running := p.running - 1, droppedTasks := t :: p.droppedTasks } w { x with alive := false }) := by
   unfold resumeWorker
   simp only [hx, hal, hpl, ht, hr, Bool.not_true, Bool.false_eq_true, if_false]
+
+/-- A worker dropped by a cancel request while parked gives its slot back: the count goes down by
+one and that worker is never counted (or scheduled) again. -/
+theorem C11_parked_cancel_slot (p : Pool) (w : Nat) (x : Worker) (hx : p.workers[w]? = some x) (hal : x.alive = true)
+    (hidle : x.task = none) (hq : p.tasks.vals = []) :
+    (dropParked p w).running = p.running - 1 ∧ (dropParked p w).workers[w]? = some { x with alive := false, task := none, rest := [] } := by
+  have hlt : w < p.workers.length := (List.getElem?_eq_some_iff.mp hx).1
+  unfold dropParked
+  simp only [hx, hal, hidle, Bool.not_true, Bool.false_eq_true, if_false]
+  have hg : ∀ q : Pool, q.tasks.vals = [] → tryGrow q = q := by intro q h; simp [tryGrow, h]
+  rw [hg _ (by simpa [setWorker] using hq)]
+  exact ⟨rfl, by simp [setWorker, hlt]⟩
 
 /-- A user coroutine submitted with `submit_co` occupies a slot exactly while it is alive. -/
 theorem C11_submit_co_counts (p : Pool) (h : Inv11 p) : Inv11 (submitCo p).1 ∧
